@@ -3,6 +3,7 @@ mod par;
 mod report;
 mod tree;
 mod valmc;
+mod replmc;
 mod scopemc;
 mod lang;
 mod gen;
@@ -60,6 +61,7 @@ fn main() {
         "C13" => progmc::c13(thorough, replay),
         "C14" => crashmc::c14(thorough, replay),
         "C15" => parsemc::c15(thorough, replay),
+        "C16" => replmc::c16(thorough, replay),
         "C17" => progmc::c17(thorough, replay),
         "C20" => valmc::c20(thorough, replay),
         _ => {
